@@ -7,7 +7,9 @@ import (
 	"fmt"
 	"math/rand"
 	"reflect"
+	"runtime"
 	"strings"
+	"sync"
 	"time"
 
 	res "github.com/jirenius/go-res"
@@ -234,6 +236,11 @@ func (e *c10Env) get(rid string) (val interface{}, found bool, ok bool) {
 		e.c.Inconclusive("get without response: " + rid)
 		return nil, false, false
 	}
+	return e.parseGet(resp[0].Data)
+}
+
+// parseGet decodes a get response.
+func (e *c10Env) parseGet(data []byte) (val interface{}, found bool, ok bool) {
 	var rr struct {
 		Result *struct {
 			Model      json.RawMessage `json:"model"`
@@ -241,7 +248,7 @@ func (e *c10Env) get(rid string) (val interface{}, found bool, ok bool) {
 		} `json:"result"`
 		Error *res.Error `json:"error"`
 	}
-	if err := json.Unmarshal(resp[0].Data, &rr); err != nil {
+	if err := json.Unmarshal(data, &rr); err != nil {
 		e.c.Inconclusive("get response not JSON")
 		return nil, false, false
 	}
@@ -619,10 +626,110 @@ func c10Run(c *core.Ctx, b core.Batch) {
 				return
 			}
 		}
+		for h := 0; h < p.N/4+2; h++ {
+			if !env.racingGets(r, h) {
+				return
+			}
+		}
 	}
 	for k, v := range sched.Counts() {
 		c.Obs("hook:"+k, v)
 	}
+}
+
+// racingGets: clients fetch the resource while another goroutine mutates it. Whatever
+// moment a get is answered at, the client that takes that response and then applies every
+// event published after it (in connection order) ends up with what a fresh get returns
+// when the mutations are over - the response and the events of a mutation are ordered
+// on the connection the same way the store ordered the read and the write.
+func (e *c10Env) racingGets(r *rand.Rand, h int) bool {
+	c := e.c
+	storeID, rid := e.ids(fmt.Sprintf("race%d", h%3))
+	cur := c10RandValue(r, e.cfg, false)
+	if err := e.mutate(storeID, nil, cur); err != nil {
+		c.Inconclusive("setup failed: " + err.Error())
+		return false
+	}
+	var nexts []interface{}
+	prev := cur
+	for k := 0; k < 14; k++ {
+		n := c10Perturb(r, prev, e.cfg)
+		if r.Intn(3) == 0 {
+			n = c10RandValue(r, e.cfg, false)
+		}
+		nexts = append(nexts, n)
+		prev = n
+	}
+	sched.SetPerturb(c.Batch.Seed+int64(h), 2)
+	start := e.rig.C.Len()
+	var wg sync.WaitGroup
+	var merr error
+	wg.Add(2)
+	go func() {
+		defer wg.Done()
+		p := cur
+		for _, n := range nexts {
+			if merr = e.mutate(storeID, p, n); merr != nil {
+				return
+			}
+			p = n
+			runtime.Gosched()
+		}
+	}()
+	inboxes := map[string]bool{}
+	getsOK := true
+	go func() {
+		defer wg.Done()
+		for k := 0; k < 20; k++ {
+			inbox, done, n := e.rig.send("get."+rid, nil)
+			if n != 1 || !waitCh(done, 10*time.Second) {
+				getsOK = false
+				return
+			}
+			inboxes[inbox] = true
+		}
+	}()
+	wg.Wait()
+	sched.SetPerturb(0, 0)
+	if merr != nil || !getsOK {
+		c.Inconclusive(fmt.Sprintf("racing gets: mutation error %v, gets processed %v", merr, getsOK))
+		return false
+	}
+	log := e.rig.C.Since(start)
+	fresh, ffound, ok := e.get(rid)
+	if !ok {
+		return false
+	}
+	sigCfg := fmt.Sprintf("%s/%s/default=%v", e.cfg.Type, e.cfg.Trans, e.cfg.Default)
+	between := 0
+	for i, m := range log {
+		if !inboxes[m.Subject] {
+			continue
+		}
+		c.Eval(1)
+		val, found, ok := e.parseGet(m.Data)
+		if !ok {
+			return false
+		}
+		desc := map[string]interface{}{"config": e.cfg, "rid": rid, "get_response": short(m.Payload, 200), "response_position": i, "messages_after_it": len(log) - i - 1}
+		client, cfound, evs := e.applyEvents(log[i+1:], rid, val, found, desc)
+		if len(evs) > 0 && i > 0 {
+			between++
+		}
+		desc["events_after_response"] = evs
+		if cfound != ffound && !(e.lastAnnounced && ffound) || cfound && ffound && canon(client) != canon(fresh) {
+			desc["client_holds"], desc["fresh_get"] = client, fresh
+			c.Violation("C10/stale-client:fetched-during-mutations:"+sigCfg, fmt.Sprintf("a client that got %s for %s while the resource was being mutated and applied the %d events published after that response holds %s; a fresh get returns %s", short(m.Payload, 120), rid, len(evs), canon(client), canon(fresh)), desc)
+			break
+		}
+	}
+	c.Obs("racing_get_rounds", 1)
+	c.Obs("racing_gets_answered_between_mutations", int64(between))
+	if between > 0 {
+		c.Distinct(fmt.Sprintf("racing/%s/%d", sigCfg, h))
+	}
+	e.mutate(storeID, prev, nil)
+	return true
 }
 
 // history: a client holds the resource over a sequence of mutations.
